@@ -43,4 +43,8 @@ PROP = {'gen_tables': ['Fields', 'AddTo', 'Any', 'Equals'],
                  'dynamic type and equality class; == panics on uncomparable types; both irreflexive on NaN/func); attributes of '
                  'the pool values are computed with reflect',
                  'encodeStringer/encodeError are modelled only for Stringers that return normally and plain errors (C10 covers the '
-                 'rest); Stack/StackSkip are not modelled (C15)']}
+                 'rest); Stack/StackSkip are not modelled (C15)'],
+ 'technique': 'Lean 4: per-constructor round-trip obligations over tables regenerated from field.go/array.go/error.go/zapfield and the AddTo/Any/Equals switches (Go conversions as Int wrap-around, closed by omega; tables by decide); tie: Gen + recording-encoder correspondence',
+ 'level_text': "ctors_ok has one goal per exported constructor of today's source, so a changed cast or tag fails `lake build`; Any's case order/completeness and Equals totality/symmetry are decided over the regenerated switches.",
+ 'level_note': '64-bit int/uint/uintptr; floats as bit patterns; Go == and reflect.DeepEqual on opaque payloads are modelled; reflexivity of Equals is partial (known finding F3b).',
+}
